@@ -221,10 +221,12 @@ def handler (prop : String) (wrong : Bool) : Handler DState where
             match parseObs o res with
             | none => (st, .bad "unparsable output")
             | some obs =>
-            let (mon, mv) := Monitors.observe st.prop st.mon o obs
-            let st := { st with mon := mon }
             let implPanic := res.startsWith "PANIC"
-            match step { s with oracle := choices } o with
+            let stepped := step { s with oracle := choices, ghost := [] } o
+            let ghosts := match stepped with | .ok (s', _) => s'.ghost | .error _ => []
+            let (mon, mv) := Monitors.observe st.prop st.mon o obs ghosts
+            let st := { st with mon := mon }
+            match stepped with
             | .error (.panic msg) =>
               if implPanic then
                 ({ st with m := .dead }, match mv with | some (t, d) => .monitorFail t d | none => .ok)
